@@ -5,6 +5,8 @@
 #[verifier::external_body] #[verifier::accept_recursive_types(T)] pub struct MpscSender<T> { p: core::marker::PhantomData<T> }
 #[verifier::external_body] #[verifier::accept_recursive_types(T)] pub struct MpscReceiver<T> { p: core::marker::PhantomData<T> }
 #[verifier::external_body] pub struct SendError { x: u8 }
+#[verifier::external_body] #[verifier::accept_recursive_types(T)] pub struct TrySendError<T> { p: core::marker::PhantomData<T> }
+impl<T> TrySendError<T> { #[verifier::external_body] pub fn into_send_error(self) -> (r: SendError) { unimplemented!() } }
 pub uninterp spec fn queue_cap(q: int) -> Option<usize>;       // the capacity the queue was created with (None: unbounded)
 pub uninterp spec fn pid_of<T>(t: &T) -> int;                 // ghost identity of a payload value
 impl<T> OwnView for MpscSender<T> { open spec fn own(&self) -> Own { own_none() } }
@@ -17,6 +19,11 @@ impl<T> MpscSender<T> {
     #[verifier::external_body]
     pub fn start_send(&mut self, msg: T, Tracked(w): Tracked<&mut World>) -> (r: Result<(), SendError>)
         ensures final(self).q() == old(self).q(), submit_post(old(self).q(), pid_of(&msg), true, old(w), final(w), r is Ok)
+    { unimplemented!() }
+    // UnboundedSender::unbounded_send: enqueue now or fail because the receiver is gone
+    #[verifier::external_body]
+    pub fn unbounded_send(&self, msg: T, Tracked(w): Tracked<&mut World>) -> (r: Result<(), TrySendError<T>>)
+        ensures submit_post(self.q(), pid_of(&msg), true, old(w), final(w), r is Ok)
     { unimplemented!() }
     // SinkExt::send: the waiting operation (enqueue, then flush: on a bounded queue wait until the receiver catches up or goes away)
     #[verifier::external_body]
